@@ -29,6 +29,7 @@ PROPS = {
         'assumptions': ['topic names starting with $ are outside the property'],
     },
     'C15': {
+        'lean_modules': ['C15', 'C15p'],
         'engines': [('ids', 200, 2000), ('idconc', 1, 1), ('initid', 2000, 200000), ('apipub', 150, 3000), ('rhandle', 1, 1), ('idreuse', 1, 1), ('retry', 150, 1000)],
         'rule': 'id sequences from counter values around every wrap point (uint16 and uint32) compared with the model; full 65535-call '
                 'windows checked for duplicates; concurrent callers (2..64 goroutines) checked for duplicates and zero',
